@@ -147,6 +147,12 @@ class _KJ(Kind):
             return s.JInt(int_term(v))
         if isinstance(v, (VStr,)) or (isinstance(v, VConst) and isinstance(v.py, str)):
             return s.JStr(KStr.unwrap(v))
+        if isinstance(v, VFloat):
+            return s.JFloat(v.fk, v.r)
+        if isinstance(v, VJList):
+            return s.JList(v.ident)
+        if isinstance(v, VJDict):
+            return s.JDict(v.ident)
         raise TypeError(f'cannot store {v!r} as J')
 
     def fresh(self, ip, hint='j'):
@@ -167,6 +173,38 @@ def UF(name, *sorts):
     if name not in _UF:
         _UF[name] = z3.Function(name, *sorts)
     return _UF[name]
+
+
+def seq_len(t):
+    '''Length of a bytes / str term as an uninterpreted function with the facts added where the term
+    is built (concatenation, slicing, literals).  z3's own sequence length would force the solver to
+    construct sequences of that length in every counter-model (e.g. 161280 hex digits).'''
+    t = z3.simplify(t)
+    if z3.is_string_value(t):
+        return z3.IntVal(len(t.as_string()))
+    n = concrete_seq_len(t)
+    if n is not None:
+        return z3.IntVal(n)
+    name = 'slen' if t.sort() == z3.StringSort() else 'blen'
+    return UF(name, t.sort(), z3.IntSort())(t)
+
+
+def concrete_seq_len(t):
+    '''Length of a literal byte sequence (unit / concat of units / empty), else None.'''
+    k = t.decl().kind()
+    if k == z3.Z3_OP_SEQ_EMPTY:
+        return 0
+    if k == z3.Z3_OP_SEQ_UNIT:
+        return 1
+    if k == z3.Z3_OP_SEQ_CONCAT:
+        tot = 0
+        for c in t.children():
+            n = concrete_seq_len(c)
+            if n is None:
+                return None
+            tot += n
+        return tot
+    return None
 
 
 def fresh_str(ip, hint='s'):
@@ -243,9 +281,9 @@ def truth(ip, v):
         x = z3.Const(ip.fresh_name('w'), v.kk.sort())
         return z3.Exists([x], z3.Select(v.dom, x))
     if isinstance(v, VStr):
-        return z3.Length(v.t) > 0
+        return seq_len(v.t) > 0
     if isinstance(v, VBytes):
-        return z3.Length(v.t) > 0
+        return seq_len(v.t) > 0
     if isinstance(v, VFloat):
         return z3.Not(z3.And(v.fk == 0, v.r == 0))
     if isinstance(v, (VJList,)):
@@ -306,12 +344,18 @@ def binop(ip, op, a, b, node):
     if isinstance(a, (VBytes,)) or isinstance(b, VBytes) or \
             (isinstance(a, VConst) and isinstance(a.py, bytes)) or (isinstance(b, VConst) and isinstance(b.py, bytes)):
         if isinstance(op, ast.Add):
-            return VBytes(z3.Concat(KBytes.unwrap(a), KBytes.unwrap(b)))
+            ta, tb = KBytes.unwrap(a), KBytes.unwrap(b)
+            r = z3.Concat(ta, tb)
+            ip.assume(seq_len(r) == seq_len(ta) + seq_len(tb))
+            return VBytes(r)
         if isinstance(op, ast.Mult):
             raise EngineError('bytes repetition with symbolic operand')
     if isinstance(a, VStr) or isinstance(b, VStr):
         if isinstance(op, ast.Add):
-            return VStr(z3.Concat(KStr.unwrap(a), KStr.unwrap(b)))
+            ta, tb = KStr.unwrap(a), KStr.unwrap(b)
+            r = z3.Concat(ta, tb)
+            ip.assume(seq_len(r) == seq_len(ta) + seq_len(tb))
+            return VStr(r)
         if isinstance(op, ast.Mod):
             ip.assumed.add('T-STR')
             return fresh_str(ip, 'fmt')
@@ -868,18 +912,22 @@ def get_item(ip, obj, idx, node):
         return v
     if isinstance(obj, VBytes) or (isinstance(obj, VConst) and isinstance(obj.py, (bytes, bytearray))):
         t = KBytes.unwrap(obj)
-        n = z3.Length(t)
+        n = seq_len(t)
         if isinstance(idx, VSlice):
             lo, hi = slice_bounds(ip, idx, n)
-            return VBytes(z3.SubSeq(t, lo, z3.If(hi > lo, hi - lo, 0)))
+            r = z3.SubSeq(t, lo, z3.If(hi > lo, hi - lo, 0))
+            ip.assume(seq_len(r) == z3.If(hi > lo, hi - lo, 0))
+            return VBytes(r)
         i = norm_index(ip, idx, n, node)
         return VInt(z3.BV2Int(t[i]))
     if isinstance(obj, VStr) or (isinstance(obj, VConst) and isinstance(obj.py, str)):
         t = KStr.unwrap(obj)
-        n = z3.Length(t)
+        n = seq_len(t)
         if isinstance(idx, VSlice):
             lo, hi = slice_bounds(ip, idx, n)
-            return VStr(z3.SubString(t, lo, z3.If(hi > lo, hi - lo, 0)))
+            r = z3.SubString(t, lo, z3.If(hi > lo, hi - lo, 0))
+            ip.assume(seq_len(r) == z3.If(hi > lo, hi - lo, 0))
+            return VStr(r)
         i = norm_index(ip, idx, n, node)
         return VStr(z3.SubString(t, i, 1))
     if isinstance(obj, VU):
@@ -1211,7 +1259,7 @@ def get_attr(ip, obj, attr, node, fr):
                     return VFunc('contractref', v.name, target=v.target, self_val=obj)
             return v
         relpath, cname = obj.cls.split(':')
-        m = find_method(ip, relpath, cname, attr)
+        m = find_method(ip, relpath, cname, attr) if relpath != 'ext' else None
         if m is not None:
             mod, key, fnode, clsname = m
             decos = [ast.unparse(d) for d in fnode.decorator_list]
@@ -1226,7 +1274,7 @@ def get_attr(ip, obj, attr, node, fr):
             if 'classmethod' in decos:
                 return VFunc('repo', attr, target=key, self_val=VClass(obj.cls, 'repo'))
             return VFunc('repo', attr, target=key, self_val=obj)
-        ca = find_class_assign(ip, relpath, cname, attr)
+        ca = find_class_assign(ip, relpath, cname, attr) if relpath != 'ext' else None
         if ca is not None:
             mod, expr = ca
             return ip.eval(expr, Frame(mod, f'{relpath}:{cname}'))
@@ -1467,10 +1515,12 @@ def _len(ip, args, kwargs, node, fr):
         return VConst(len(v.items))
     if isinstance(v, VConst) and isinstance(v.py, (str, bytes, tuple)):
         return VConst(len(v.py))
-    if isinstance(v, VBytes):
-        return VInt(z3.Length(v.t))
-    if isinstance(v, VStr):
-        return VInt(z3.Length(v.t))
+    if isinstance(v, (VBytes, VStr)):
+        r = seq_len(v.t)
+        if z3.is_int_value(r):
+            return VConst(r.as_long())
+        ip.assume(r >= 0)
+        return VInt(r)
     if isinstance(v, VU) and v.kind.lenf:
         r = UF(v.kind.lenf, v.kind.sort(), z3.IntSort())(v.t)
         ip.assume(r >= 0)
@@ -1914,7 +1964,7 @@ def call_class(ip, c, args, kwargs, node, fr):
             if isinstance(inner, VBytes):
                 rev = UF('brev', inner.t.sort(), inner.t.sort())
                 r = rev(inner.t)
-                ip.assume(z3.Length(r) == z3.Length(inner.t))
+                ip.assume(seq_len(r) == seq_len(inner.t))
                 ip.assume(rev(r) == inner.t)
                 return VBytes(r)
             if isinstance(inner, VU):
@@ -1930,11 +1980,11 @@ def call_class(ip, c, args, kwargs, node, fr):
             if ip.branch(n_ < 0):
                 raise PyRaise(VExc('ValueError'), node)
             r = fresh_bytes(ip, 'zeros')
-            ip.assume(z3.Length(r.t) == n_)
+            ip.assume(seq_len(r.t) == n_)
             return r
         if isinstance(v, VList) and v.ek == KInt:
             r = fresh_bytes(ip, 'frombytes')
-            ip.assume(z3.Length(r.t) == v.n)
+            ip.assume(seq_len(r.t) == v.n)
             return r
         raise EngineError(f'bytes() of {v!r}')
     if n == 'str':
@@ -2396,6 +2446,7 @@ def _b_hex(ip, recv, args, kwargs, node, fr):
     if isinstance(recv, VConst):
         return VConst(recv.py.hex())
     r = UF('tohex', z3.SeqSort(ByteSort), z3.StringSort())(recv.t)
+    ip.assume(seq_len(r) == 2 * seq_len(recv.t))
     return VStr(r)
 
 
@@ -2453,6 +2504,16 @@ def _s_startswith(ip, recv, args, kwargs, node, fr):
         return KBool.wrap(z3.Or(*[bool_term(t) for t in ts]))
     fn = z3.PrefixOf if node.func.attr == 'startswith' else z3.SuffixOf
     return KBool.wrap(fn(KStr.unwrap(a), KStr.unwrap(recv)))
+
+
+@method('str', 'encode')
+def _s_encode(ip, recv, args, kwargs, node, fr):
+    if isinstance(recv, VConst):
+        return VConst(recv.py.encode())
+    f = UF('str_encode', z3.StringSort(), z3.SeqSort(ByteSort))
+    r = f(recv.t)
+    ip.assume((seq_len(r) == 0) == (seq_len(recv.t) == 0))
+    return VBytes(r)
 
 
 @method('str', 'split')
@@ -2712,7 +2773,7 @@ def comprehension(ip, e, fr, kind):
 SPEC_FUNCS = {'old', 'forall', 'exists', 'implies', 'iff', 'ite', 'dom', 'union', 'inter', 'diff', 'subset',
               'empty', 'add', 'remove', 'use', 'check', 'assume', 'pow2', 'store', 'lookup', 'has',
               'is_none', 'some', 'slice_', 'concat', 'listof', 'setof', 'card', 'fresh', 'havoc', 'tup',
-              'seq_eq', 'div', 'mod', 'bv', 'apply', 'let', 'take', 'snoc', 'copy', 'drop', 'sub'}
+              'seq_eq', 'div', 'mod', 'bv', 'apply', 'let', 'take', 'snoc', 'copy', 'drop', 'sub', 'is_err', 'okval'}
 
 
 def find_old(fr):
@@ -2861,6 +2922,18 @@ def spec_call(ip, e, fr):
         if isinstance(d, VList):
             return VList(z3.Store(d.arr, int_term(k), d.ek.unwrap(v)), d.n, d.ek)
         raise EngineError('store on this value')
+    if name == 'is_err':
+        v = ev(e.args[0])
+        if isinstance(v, VExc):
+            return VConst(True)
+        if type(v).__name__ == 'VExcOrTerm':
+            return KBool.wrap(v.kind.sort().recognizer(1)(v.t))
+        return VConst(False)
+    if name == 'okval':
+        v = ev(e.args[0])
+        if type(v).__name__ == 'VExcOrTerm':
+            return v.kind.inner.wrap(v.kind.sort().accessor(0, 0)(v.t), None)
+        return v
     if name == 'is_none':
         v = resolve(ip, ev(e.args[0]))
         if isinstance(v, VOptTerm):
